@@ -671,8 +671,14 @@ func (d *urlValuesDecoder) DecodeObject(param string, sm *openapi3.Serialization
 					continue
 				case l >= 1:
 					kk := []string{}
+					rebuilt := param
 					for _, m := range matches {
 						kk = append(kk, m[1])
+						rebuilt += m[0]
+					}
+					if rebuilt != key {
+						// text outside the brackets (p[a]zz, p[a][): not a deepObject key of this parameter
+						continue
 					}
 					props[strings.Join(kk, urlDecoderDelimiter)] = strings.Join(values, urlDecoderDelimiter)
 				}
